@@ -387,8 +387,21 @@ class Executor:
             # mechanical extraction of one top-level loop of the real function as a function of its free variables:
             # everything before and after the loop (argument validation, list building, reshape) is dropped
             kind, which = frag
-            tl = [n for n in self.fnode.body if isinstance(n, (ast.For, ast.While))]
-            loop = tl[which]
+            if kind == "if_prefix":
+                # the straight-line prefix (up to the first loop) of the body of the `if` with the given test, as a function
+                cands = [n for n in ast.walk(self.fnode) if isinstance(n, ast.If) and ast.unparse(n.test) == which]
+                if len(cands) != 1:
+                    raise ContractMismatch("fragment: %d if-statements with test `%s` in %s" % (len(cands), which, contract.key))
+                body = []
+                for n_ in cands[0].body:
+                    if isinstance(n_, (ast.For, ast.While)):
+                        break
+                    body.append(n_)
+                loop = ast.If(test=ast.Constant(value=True), body=body, orelse=[])
+                ast.copy_location(loop, cands[0])
+            else:
+                tl = [n for n in self.fnode.body if isinstance(n, (ast.For, ast.While))]
+                loop = tl[which]
             ret = ast.Return(value=ast.Name(id=getattr(contract, "options", {}).get("fragment_result", "out"), ctx=ast.Load()))
             f2 = ast.FunctionDef(name=self.fnode.name, args=ast.arguments(posonlyargs=[], args=[ast.arg(arg=a) for a in contract.params],
                                                                            kwonlyargs=[], kw_defaults=[], defaults=[]),
